@@ -533,7 +533,9 @@ class Analyzer:
             # (`def _gate_lines(c)` called only with Circuit objects): the public functions document theirs, users cannot call these
             for (k, p_), kinds in sorted(self.observed_kinds.items()):
                 fi = self.repo.funcs.get(k)
-                if fi is None or not (fi.node.name.startswith("_") and not fi.node.name.startswith("__") or fi.parent is not None):
+                # (the functions of a private module - `_walk.py`, `_impl/counting.py` - are private helpers whatever their own names)
+                private_module = any(part.startswith("_") and not part.startswith("__") for part in k[0].split("/"))
+                if fi is None or not (fi.node.name.startswith("_") and not fi.node.name.startswith("__") or fi.parent is not None or private_module):
                     continue
                 if self.param_kinds[k].get(p_) is None and p_ != "self" and len(kinds) == 1 and next(iter(kinds)) in ("Circuit", "BlackBox", "Graph") and (k, p_) not in self.inferred_kinds:
                     self.param_kinds[k][p_] = next(iter(kinds))
@@ -720,11 +722,36 @@ class FuncAnalysis:
             av = flatten_record(av)  # summaries are field-insensitive
         self.ret_av = av if self.ret_av is None else self.ret_av.join(av)
 
+    def tuple_record_positions(self, av):
+        """The fields of a NamedTuple / namedtuple record in positional order (what unpacking the value yields), or None."""
+        if av.kind != "record" or av.cls is None or len(av.cls) != 2 or av.fields is None:
+            return None
+        rel, cname = av.cls
+        names = self.an.res.tuple_classes.get((rel, cname))
+        if names is None:
+            cdef = self.repo.classes.get((rel, cname))
+            if cdef is None or not any((dotted(b) or "").split(".")[-1] == "NamedTuple" for b in cdef.bases):
+                return None
+            names = [st.target.id for st in cdef.body if isinstance(st, ast.AnnAssign) and isinstance(st.target, ast.Name)]
+        if not names or "*" in av.fields or any(nm not in av.fields for nm in names):
+            return None
+        return [flatten_record(av.fields[nm]) for nm in names]
+
     def st_Return(self, st):
         self.s.returns_seen += 1
-        self._ret(self.ev(st.value) if st.value is not None else FRESH)
+        rv = self.ev(st.value) if st.value is not None else FRESH
+        rec_pos = self.tuple_record_positions(rv) if not self.inline_stack else None
+        self._ret(rv)
         if not self.inline_stack:
-            if isinstance(st.value, ast.Tuple) and not any(isinstance(e, ast.Starred) for e in st.value.elts) and self.ret_pos_avs is not False:
+            if rec_pos is not None and self.ret_pos_avs is not False:
+                # `return Plan(a, b, c)` of a NamedTuple the caller unpacks: positional, like a tuple display
+                if self.ret_pos_avs is None:
+                    self.ret_pos_avs = rec_pos
+                elif len(self.ret_pos_avs) == len(rec_pos):
+                    self.ret_pos_avs = [a.join(b) for a, b in zip(self.ret_pos_avs, rec_pos)]
+                else:
+                    self.ret_pos_avs = False
+            elif isinstance(st.value, ast.Tuple) and not any(isinstance(e, ast.Starred) for e in st.value.elts) and self.ret_pos_avs is not False:
                 avs = [flatten_record(self.ev(e)) for e in st.value.elts]
                 if self.ret_pos_avs is None:
                     self.ret_pos_avs = avs
